@@ -263,7 +263,7 @@ func (c *Channel) Invoke(ctx context.Context, method string, req, resp interface
 			_ = writeMessage(ctx, nil, ch, frame{trailers: t})
 		}
 		if err != nil {
-			_ = writeMessage(ctx, nil, ch, frame{err: err})
+			_ = writeMessage(ctx, nil, ch, frame{err: asStatusError(err)})
 		}
 	}()
 
@@ -366,7 +366,7 @@ func (c *Channel) NewStream(ctx context.Context, desc *grpc.StreamDesc, method s
 		serverStream.ctx = grpc.NewContextWithServerTransportStream(svrCtx, sts)
 		var err error
 		defer func() {
-			serverStream.finish(err)
+			serverStream.finish(asStatusError(err))
 		}()
 
 		if c.streamInterceptor != nil {
@@ -393,6 +393,21 @@ func (c *Channel) NewStream(ctx context.Context, desc *grpc.StreamDesc, method s
 		cancel()
 	})
 	return cs, nil
+}
+
+// asStatusError converts an error returned by a handler into a status error
+// the same way a gRPC server does: status errors are passed through, context
+// errors become Canceled or DeadlineExceeded, and anything else (including
+// io.EOF, which a client would otherwise mistake for a clean end of stream)
+// becomes Unknown.
+func asStatusError(err error) error {
+	if err == nil {
+		return nil
+	}
+	if _, ok := status.FromError(err); ok {
+		return err
+	}
+	return status.FromContextError(err).Err()
 }
 
 var clientContextKey = "holds a client context"
